@@ -3,6 +3,7 @@
 R12-table  get_datatype_limits == oracle/datatype_limits.json (IEEE / two's-complement limits of the 11 data types)
 R12-dep    in calc_compu_method_limits, on every path the two outputs together depend on both raw limits (or on none: constants)
 R12-open   the conditions of the swap / the open-range arms equal the reviewed table (guard table of the function)
+R12-guards the conditions under which LimitCheckError is reported equal the reviewed table (checker section, shared with R11-guards)
 R12-which  the data type handed to calc_compu_method_limits at each call site comes from the right element, and the record-layout
            axis is selected by the AXIS_DESCR's own position (no filtering before enumerate)
 """
@@ -128,6 +129,13 @@ def run(chk):
 
     # ------------------------------------------------------------------ R12-open (guard table)
     diag.compare(chk, "R12-open", "limits", limits_table(prog), "calls that decide the computed range (raw limits, inverse function, swap) with their control predicates, compared with the reviewed table", floor=3)
+
+    # ------------------------------------------------------------------ R12-guards
+    # the LimitCheckError rows of the checker table (shared with R11-guards): for every element kind the diagnostic is pushed exactly
+    # when check_limits_valid fails -- no further condition on the element (seed C12v: no limit check for a MEASUREMENT with VIRTUAL)
+    from . import c11
+    diag.compare(chk, "R12-guards", "checker", c11.checker_table(prog), "LimitCheckError push sites of checker.rs with their control predicates, compared with the reviewed table", floor=5,
+                 row_filter=lambda r: "LimitCheckError" in r[0])
 
     # ------------------------------------------------------------------ R12-which
     A = sym.Analyzer(prog, opaque=[r"checker::calc_compu_method_limits", r"checker::check_limits_valid", r"module::.*::(objects|compu_tabs|typedefs)"])
